@@ -102,6 +102,12 @@ Section spec_obs.
     flat_map (fun mc => map (fun sy => spec_balance U (fs m) mc sy (sclock m)) (sync_list tip (tc_syncoffs c))) (tc_minconfs c).
   Definition s_utxos (m : sstate) : list utxo := merge_sort utxo_le (spec_utxos U (fs m) (sclock m)).
   Definition s_unmined (m : sstate) : list txid := merge_sort N_le' (elements (f_unconf (fs m))).
+  (** the rescan set (OutputsToWatch): every credited output of a known
+      transaction that no CONFIRMED transaction spends (= InvRange.spec_watch) *)
+  Definition s_watch (m : sstate) : list outpoint :=
+    merge_sort op_le (omap (fun x : tx * N * bool =>
+                              if known_output U (fs m) (t_id x.1.1, x.1.2) then Some (t_id x.1.1, x.1.2) else None)
+                           (credited_outputs U (fs m))).
   Definition s_locked (m : sstate) : list (outpoint * lockval) :=
     merge_sort lock_le (filter (fun kv => sclock m < l_expiry kv.2) (map_to_list (f_leases (fs m)))).
   Definition s_details (m : sstate) : list (txid * option details) :=
@@ -154,6 +160,7 @@ Definition check_event (U : universe) (c : tcase) (m : mstate) (sm : sstate) (o 
        (eqb_on (m_locked m) (io_locked io), 17%nat);
        (eqb_on (s_bal U c sm tip) (io_bal io), 113%nat);
        (eqb_on (s_utxos U sm) (io_utxos io), 114%nat);
+       (eqb_on (s_watch U sm) (io_watch io), 115%nat);
        (eqb_on (s_unmined sm) (io_unmined io), 116%nat);
        (eqb_on (s_locked sm) (io_locked io), 117%nat) ]
      ++ (if tc_details c then
@@ -192,7 +199,9 @@ Definition check_pair (U : universe) (c : tcase) : list (nat * nat) :=
     let tip := io_tip iob in
     map (fun code => (length ha, code)) (first_fail
       [ (chain_consistent U hb, 903%nat);
-        (eqb_on (f_conf (fs sa)) (f_conf (fs sb)) && eqb_on (f_unconf (fs sa)) (f_unconf (fs sb)), 904%nat);
+        (* same_facts of Corollaries.v: confirmed, unconfirmed AND the raw leases (and the clock) *)
+        (eqb_on (f_conf (fs sa)) (f_conf (fs sb)) && eqb_on (f_unconf (fs sa)) (f_unconf (fs sb))
+         && eqb_on (f_leases (fs sa)) (f_leases (fs sb)) && eqb_on (sclock sa) (sclock sb), 904%nat);
         (eqb_on (m_bal U c mb tip) (io_bal iob), 21%nat);
         (eqb_on (m_utxos U mb) (io_utxos iob), 22%nat);
         (eqb_on (m_details U c mb) (io_details iob), 23%nat);
